@@ -22,10 +22,15 @@ async def _drain(registry, name, rx):
     """Everything buffered in `rx`, without timers: close the channel, then read until the receiver reports the end.
     (Broadcast senders put messages into the receivers' buffers synchronously, so after the loop iterations granted
     above nothing is in flight; a wall-clock timeout here would make the verdict depend on machine load.)"""
-    from frequenz.channels import ReceiverStoppedError
     from frequenz.quantities import Quantity
     from frequenz.sdk.timeseries import Sample
     await registry.get_or_create(Sample[Quantity], name).close()
+    return await _read_all(rx)
+
+
+async def _read_all(rx):
+    """Everything left in a receiver of a closed channel."""
+    from frequenz.channels import ReceiverStoppedError
     got = []
     while True:
         try:
@@ -68,6 +73,7 @@ async def scenario(events, yields):
     with mock.patch.object(connection_manager, "get", lambda: Conn()):
         src = MicrogridApiSource(registry)
         receivers = {}      # channel name -> (receiver, metric attr, index of first message it must see)
+        late = {}           # channel name -> (a second receiver taken while the stream was flowing, messages sent before)
         n_sent = 0
         metric_attr = {"ACTIVE_POWER": "active_power", "REACTIVE_POWER": "reactive_power"}
 
@@ -87,6 +93,12 @@ async def scenario(events, yields):
                 if cid == METER and name not in receivers:
                     rx = registry.get_or_create(Sample[Quantity], name).new_receiver(limit=100)
                     receivers[name] = (rx, metric_attr[metric], None)
+                elif cid == METER and name not in late and n_sent > 0:
+                    # a second consumer of a stream that is already flowing (the identical request repeated): once
+                    # everything sent so far has been forwarded, its receiver sees only what is sent from now on
+                    for _ in range(30):
+                        await asyncio.sleep(0)
+                    late[name] = (registry.get_or_create(Sample[Quantity], name).new_receiver(limit=100), n_sent)
                 await src.add_metric(req)
                 if cid == METER and receivers[name][2] is None:
                     receivers[name] = (receivers[name][0], receivers[name][1], n_sent)
@@ -95,8 +107,11 @@ async def scenario(events, yields):
         for _ in range(50):
             await asyncio.sleep(0)
         # every subscribed stream: exactly the messages sent after its subscription, once each, in order.
+        late_got = {}
         for name, (rx, attr, first) in receivers.items():
             got = await _drain(registry, name, rx)
+            if name in late:
+                late_got[name] = await _read_all(late[name][0])       # (the channel is closed by now)
             stamps = [int((s.timestamp - T0).total_seconds()) for s in got]
             base = 100.0 if attr == "active_power" else 200.0
             vals_ok = all(s.value is not None and abs(s.value.base_value - (base + k)) < 1e-9 for s, k in zip(got, stamps))
@@ -107,6 +122,12 @@ async def scenario(events, yields):
             if tail != must or stamps != sorted(set(stamps)) or not vals_ok:
                 failures.append(f"channel {name}: delivered timestamps {stamps} (values ok: {vals_ok}); messages "
                                 f"{must} were sent after the subscription")
+        for name, got in late_got.items():
+            stamps = [int((s.timestamp - T0).total_seconds()) for s in got]
+            if stamps != list(range(late[name][1], n_sent)):
+                failures.append(f"channel {name}: a receiver taken after messages 0..{late[name][1] - 1} had been delivered got "
+                                f"timestamps {stamps}; it was subscribed for {list(range(late[name][1], n_sent))} only "
+                                f"(each message exactly once on the streams subscribed at that time)")
         if len(calls) > 1:
             failures.append(f"the component data stream was requested {len(calls)} times")
         for t in list(src.comp_data_tasks.values()):
